@@ -16,6 +16,8 @@ Line protocol of the C18 heap model.
   path    ::= (<step>*)        step ::= (f k) | (i n)
   op      ::= (new c) | (read a path) | (assign a path k tree) | (append a path tree) | (setidx a path i tree)
             | (encode a) | (mkbuf a) | (decode c b) | (scribble b)
+            | (copy b path_b k a path_a)      FIX: `obj = read b path_b; obj[k] = read a path_a` (the library copies deeply)
+            | (clone a)                       FIX: a new message from `from_value` copies of a's three segments
   result  ::= (<ok|error name> <classSafe 0|1> <value read|-> (v <view> <x…|err-name>)*)     views of all instances after the op
   view    ::= <int> | (s cp*) | none | (l view*) | (o cls (k view)*) | x… | cut
              (object entries: declared keys in declaration order — assigned value or what the unassigned key reads as —
@@ -104,6 +106,8 @@ def opOf : Sexp → Option Op
   | .list [.atom "mkbuf", a] => do some (.mkbuf (← asNat a))
   | .list [.atom "decode", c, b] => do some (.decode (← asNat c) (← asNat b))
   | .list [.atom "scribble", b] => do some (.scribble (← asNat b))
+  | .list [.atom "copy", b, pb, k, a, pa] => do some (.copy (← asNat b) (← pathOf pb) (← asNat k) (← asNat a) (← pathOf pa))
+  | .list [.atom "clone", a] => do some (.clone (← asNat a))
   | _ => none
 
 def atomI (i : Int) : Sexp := .atom (toString i)
@@ -205,6 +209,8 @@ def opSx : Op → Sexp
   | .mkbuf a => .list [.atom "mkbuf", atomN a]
   | .decode c b => .list [.atom "decode", atomN c, atomN b]
   | .scribble b => .list [.atom "scribble", atomN b]
+  | .copy b pb k a pa => .list [.atom "copy", atomN b, pathSx pb, atomN k, atomN a, pathSx pa]
+  | .clone a => .list [.atom "clone", atomN a]
 
 def witnessText : String :=
   (schemaSx witnessSchema).toStr ++ " " ++ (Sexp.list (witnessOps.map opSx)).toStr
